@@ -53,6 +53,7 @@ type Check struct {
 	Assumptions     []string
 	Extra           map[string]any
 	Workers         int
+	AtExit          func()
 
 	start    float64
 	deadline float64
@@ -264,6 +265,9 @@ func (k *Check) Replaying() (bool, string) {
 
 // Finish writes the evidence file, prints verdict lines and exits.
 func (k *Check) Finish() {
+	if k.AtExit != nil {
+		k.AtExit()
+	}
 	if k.worker != "" {
 		fatal("worker part %q not found in check %s", k.worker, k.ID)
 	}
